@@ -4825,6 +4825,7 @@ func (t *Terminal) Loop() error {
 					t.printInfo()
 				}
 				t.flush()
+				verifTrace("term.render", len(keys), 0, "")
 				t.mutex.Unlock()
 				t.uiMutex.Unlock()
 			})
